@@ -39,7 +39,7 @@ struct Family { std::string name; uint64_t count; std::function<std::string(uint
 
 struct Corpus {
   std::vector<Family> fams; std::vector<uint64_t> prefix; uint64_t total = 0;
-  ExprSets E, E3;  // F1 expressions (<=2 operators), F1k3 (3 operators, reduced leaves)
+  ExprSets E, E3, Es;  // F1 expressions (<=2 operators), F1k3 (3 operators, reduced leaves)
   void add(Family f) { prefix.push_back(total); total += f.count; fams.push_back(std::move(f)); }
   std::string make(uint64_t idx, std::string *shape = nullptr, std::string *family = nullptr) const {
     size_t i = std::upper_bound(prefix.begin(), prefix.end(), idx) - prefix.begin() - 1;
@@ -57,6 +57,13 @@ struct Corpus {
   // body statement list S runs inside t(val p, array fa) with locals x,i,b initialised; main calls t(20, a)
   static std::string wrapProc(const std::string &S) {
     return prelude() + "proc t(val p, array fa) is var x; var i; var b; var y;\n{ x := 5; i := 2; b := 1; y := 0; g := 9; h := 0; a[0] := 10; a[1] := 11; a[2] := 12; a[3] := 13;\n  " + S + " }\nproc main() is t(20, a)\n";
+  }
+  // like wrapProc but with an extra local j = 1 (declared by textual substitution into the standard wrapper)
+  static std::string wrapProcJ(const std::function<std::string(const std::string &)> &prog, const std::string &e) {
+    std::string p = prog(e);
+    size_t a = p.find("var y;"); if (a != std::string::npos) p.insert(a + 6, " var j;");
+    size_t b = p.find("y := 0;"); if (b != std::string::npos) p.insert(b + 7, " j := 1;");
+    return p;
   }
   static std::string wrapFunc(const std::string &retExpr) {
     return prelude() + "func t(val p, array fa) is var x; var i; var b; var y;\n{ x := 5; i := 2; b := 1; y := 0; g := 9; h := 0; a[0] := 10; a[1] := 11; a[2] := 12; a[3] := 13;\n  return " + retExpr + " }\nproc main() is 0(t(20, a))\n";
@@ -101,6 +108,21 @@ struct Corpus {
       if (!thorough && kk == 2 && ci >= 4 && ci != 12 && ci != 15) continue;
       add({"F1:" + std::string(cx.name) + ":k" + std::to_string(kk), (uint64_t)lst->size(),
            [lst, &cx](uint64_t i, std::string *shape) { if (shape) *shape = std::string(cx.name) + ":" + (*lst)[i].shape; return cx.prog((*lst)[i].s); }});
+    }
+    // ------------------------------------------------------------ F1s: subscript expressions that stay in range (small leaves), on global and formal arrays, read and write
+    {
+      Es.build(2, {{"0", false, "k", false}, {"1", false, "k", false}, {"2", false, "k", false}, {"3", false, "k", false}, {"i", false, "l", false}, {"j", false, "l", false}, {"c", false, "v", false}, {"id(1)", false, "fn", true}}, {});
+      static const std::vector<Ctx> sctx = {
+          {"sub-read", false, [](const std::string &e) { return wrapProc("0(a[" + e + "])"); }},
+          {"sub-read-formal", false, [](const std::string &e) { return wrapProc("0(fa[" + e + "])"); }},
+          {"sub-write", false, [](const std::string &e) { return wrapProc("a[" + e + "] := 77; 0((a[0] + a[1]) + (a[2] + (a[3] + a[3])))"); }},
+          {"sub-write-formal", false, [](const std::string &e) { return wrapProc("fa[" + e + "] := x + 70; 0((a[0] + a[1]) + (a[2] + (a[3] + a[3])))"); }},
+          {"sub-both", false, [](const std::string &e) { return wrapProc("a[" + e + "] := a[3 - (" + e + ")] + 1; 0((a[0] + a[1]) + (a[2] + (a[3] + a[3])))"); }},
+      };
+      for (int kk = 1; kk <= 2; kk++) for (auto &cx : sctx) {
+        const std::vector<TExpr> *lst = &Es.ints[kk];
+        add({"F1s:" + std::string(cx.name) + ":k" + std::to_string(kk), (uint64_t)lst->size(), [lst, &cx](uint64_t i, std::string *shape) { if (shape) *shape = std::string(cx.name) + ":" + (*lst)[i].shape; return wrapProcJ(cx.prog, (*lst)[i].s); }});
+      }
     }
     // ------------------------------------------------------------ F1k3 (thorough): three operators over a reduced leaf set, key contexts
     if (thorough) {
